@@ -173,7 +173,8 @@ namespace GeographicLib {
       return;
     }
     int zone1 = 0;
-    while (p < len) {
+    // Stop after 3 digits (already an error) to prevent overflow of zone1
+    while (p < len && p < 3) {
       int i = Utility::lookup(digits_, mgrs[p]);
       if (i < 0)
         break;
